@@ -290,7 +290,10 @@ Definition live_paths (pvs : list pv) : list (list str * tv) :=
 Definition wf_set (rfc : bool) (pvs : list pv) : bool :=
   let lp := live_paths pvs in
   let t := trie_of lp in
-  forallb (fun p => normalb (fst p)) lp && paths_eqb (dfs t) lp && wf_trie rfc (schema_of lp) [] [] t.
+  match lp with
+  | [] => true                                  (* nothing is live: the empty document *)
+  | _ => forallb (fun p => normalb (fst p)) lp && paths_eqb (dfs t) lp && wf_trie rfc (schema_of lp) [] [] t
+  end.
 
 (* the leaves the live paths stand for: every live valued leaf, and for every list entry on some live path its
    key values as string leaves unless an explicit leaf restates the key *)
